@@ -5,7 +5,7 @@ from . import common as C
 
 THEORY = ["theories/Base/ListExtra.v", "theories/Base/Bytes.v", "theories/Base/Crc.v", "theories/Base/Parser.v",
           "theories/Base/Prog.v", "theories/Format/Structs.v", "theories/Manifest/SetLocation.v", "theories/Content/Pack.v",
-          "theories/Dir/Layout.v", "theories/Dir/DirModel.v", "theories/Container/Reader.v", "theories/Container/Proofs.v"]
+          "theories/Dir/Layout.v", "theories/Dir/DirModel.v", "theories/Container/Reader.v", "theories/Container/Proofs.v", "theories/Container/Embed.v"]
 
 
 def case_text(c, seed):
@@ -25,7 +25,7 @@ def parse_replay(path):
     return cases
 
 
-def run_cases(res, cases, seed, timeout=1500):
+def run_cases(res, cases, seed, timeout=1500, model_extra=()):
     ok, log = C.build_ocaml()
     if not ok:
         res.violation("model extraction / driver build failed", log[-3000:], found_input=False)
@@ -60,6 +60,8 @@ def run_cases(res, cases, seed, timeout=1500):
                 for l in R.get(c["id"], []):
                     if l.startswith("@model %s " % tag):
                         f.write(l[len("@model %s " % tag):] + "\n")
+                for x in model_extra:
+                    f.write(x + "\n")
                 f.write("end\n")
     rc, log = C.run_model(mcases, model_out)
     if rc != 0:
